@@ -190,13 +190,13 @@ Proof.
                      else let '(p, c, r') := at_rule_loop l in (t :: p, c, r')
               end) by (intros l; destruct t; reflexivity).
     rewrite !Hcons.
-    destruct t; try (right; reflexivity);
-      try (destruct (at_rule_loop r) as [[x y] z]; cbn [fst snd] in *;
-           destruct IH as [[E1 E2]|E1]; rewrite E1; cbn [is_literal]; [left|right]; auto).
-    (* literal *)
-    destruct (is_literal (TLiteral p v) s_semicolon); [right; reflexivity|].
-    destruct (at_rule_loop r) as [[x y] z]; cbn [fst snd] in *.
-    destruct IH as [[E1 E2]|E1]; rewrite E1; [left|right]; auto.
+    destruct t.
+    1: { cbn [is_literal]. destruct (str_eqb v s_semicolon); [right; reflexivity|].
+         destruct (at_rule_loop r) as [[x y] z]; cbn [fst snd] in *.
+         destruct IH as [[E1 E2]|E1]; rewrite E1; [left|right]; auto. }
+    all: try (right; reflexivity).
+    all: cbn [is_literal]; destruct (at_rule_loop r) as [[x y] z]; cbn [fst snd] in *;
+         destruct IH as [[E1 E2]|E1]; rewrite E1; [left|right]; auto.
 Qed.
 
 Definition decl_consumer (fxp : bool) := with_at (consume_declaration_in_list fxp).
@@ -240,3 +240,130 @@ Theorem parse_declaration_list_total : forall fxp l sc sw, exists o, parse_decla
 Proof.
   intros. unfold parse_declaration_list. apply loop_ok; [apply decl_consumer_length|lia].
 Qed.
+
+(* ------------------------------------------------------------------ rule lists: a rule ends exactly at its {} block *)
+Lemma qualified_loop_rest stop l :
+  match qualified_loop stop l with
+  | QRBlock _ _ r | QRStop _ r => (length r <= length l)%nat
+  | QREof _ => True
+  end.
+Proof.
+  induction l as [|t r IH]; cbn [qualified_loop]; [exact I|].
+  destruct (stop && is_literal t s_semicolon); [simpl; lia|].
+  destruct t; try (destruct (qualified_loop stop r); simpl in *; lia).
+Qed.
+
+Lemma consume_rule_length t r : (length (snd (consume_rule t r)) <= length r)%nat.
+Proof.
+  unfold consume_rule, consume_at_rule, consume_qualified_rule.
+  pose proof (at_rule_loop_length r). pose proof (qualified_loop_rest false r).
+  destruct t; cbn [andb];
+    try (destruct (qualified_loop false r); simpl in *; lia);
+    try (destruct (at_rule_loop r) as [[x y] z]; simpl in *; lia).
+Qed.
+
+Lemma at_rule_loop_block p0 args r b :
+  (at_rule_loop (r ++ TCurly p0 args :: b) = (fst (at_rule_loop (r ++ [TCurly p0 args])), b) /\
+   snd (at_rule_loop (r ++ [TCurly p0 args])) = []) \/
+  (exists s, at_rule_loop (r ++ TCurly p0 args :: b) = (fst (at_rule_loop (r ++ [TCurly p0 args])), s ++ TCurly p0 args :: b) /\
+             snd (at_rule_loop (r ++ [TCurly p0 args])) = s ++ [TCurly p0 args]).
+Proof.
+  induction r as [|t r IH]; cbn [app].
+  - left. split; reflexivity.
+  - assert (Hcons : forall l, at_rule_loop (t :: l) =
+              match t with
+              | TCurly _ a => ([], Some a, l)
+              | _ => if is_literal t s_semicolon then ([], None, l)
+                     else let '(p, c, r') := at_rule_loop l in (t :: p, c, r')
+              end) by (intros l; destruct t; reflexivity).
+    rewrite !Hcons.
+    assert (Hstep : (let '(p, c, r') := at_rule_loop (r ++ TCurly p0 args :: b) in (t :: p, c, r')) =
+                    (fst (let '(p, c, r') := at_rule_loop (r ++ [TCurly p0 args]) in (t :: p, c, r')), b) /\
+                    snd (let '(p, c, r') := at_rule_loop (r ++ [TCurly p0 args]) in (t :: p, c, r')) = [] \/
+                    (exists s, (let '(p, c, r') := at_rule_loop (r ++ TCurly p0 args :: b) in (t :: p, c, r')) =
+                      (fst (let '(p, c, r') := at_rule_loop (r ++ [TCurly p0 args]) in (t :: p, c, r')), s ++ TCurly p0 args :: b) /\
+                      snd (let '(p, c, r') := at_rule_loop (r ++ [TCurly p0 args]) in (t :: p, c, r')) = s ++ [TCurly p0 args])).
+    { destruct (at_rule_loop (r ++ [TCurly p0 args])) as [[x y] z]; cbn [fst snd] in *.
+      destruct IH as [[E1 E2]|(s & E1 & E2)]; rewrite E1; [left|right; exists s]; auto. }
+    destruct t; cbn [is_literal]; try exact Hstep.
+    + destruct (str_eqb v s_semicolon); [|exact Hstep]. right. exists r. split; reflexivity.
+    + right. exists r. split; reflexivity.
+Qed.
+
+Lemma qualified_loop_block p0 args r b :
+  exists P c,
+  (qualified_loop false (r ++ TCurly p0 args :: b) = QRBlock P c b /\
+   qualified_loop false (r ++ [TCurly p0 args]) = QRBlock P c []) \/
+  (exists s, qualified_loop false (r ++ TCurly p0 args :: b) = QRBlock P c (s ++ TCurly p0 args :: b) /\
+             qualified_loop false (r ++ [TCurly p0 args]) = QRBlock P c (s ++ [TCurly p0 args])).
+Proof.
+  induction r as [|t r IH]; cbn [app qualified_loop andb].
+  - exists [], args. left; split; reflexivity.
+  - destruct IH as (P & c & IH).
+    assert (Hn : is_curly t = false ->
+      exists P' c', (qualified_loop false (t :: r ++ TCurly p0 args :: b) = QRBlock P' c' b /\
+                     qualified_loop false (t :: r ++ [TCurly p0 args]) = QRBlock P' c' []) \/
+        (exists s, qualified_loop false (t :: r ++ TCurly p0 args :: b) = QRBlock P' c' (s ++ TCurly p0 args :: b) /\
+                   qualified_loop false (t :: r ++ [TCurly p0 args]) = QRBlock P' c' (s ++ [TCurly p0 args]))).
+    { intros Hc. exists (t :: P), c.
+      assert (Hcons : forall l, qualified_loop false (t :: l) =
+                match qualified_loop false l with
+                | QRBlock p c r' => QRBlock (t :: p) c r'
+                | QREof p => QREof (t :: p)
+                | x => x
+                end) by (intros l; destruct t; try reflexivity; discriminate).
+      rewrite !Hcons.
+      destruct IH as [[E1 E2]|(s & E1 & E2)]; rewrite E1, E2; [left|right; exists s]; split; reflexivity. }
+    destruct t; try (apply Hn; reflexivity).
+    eexists [], _. right. exists r. split; reflexivity.
+Qed.
+
+Lemma consume_rule_block p0 args t r b :
+  (consume_rule t (r ++ TCurly p0 args :: b) = (fst (consume_rule t (r ++ [TCurly p0 args])), b) /\
+   snd (consume_rule t (r ++ [TCurly p0 args])) = []) \/
+  (exists s, consume_rule t (r ++ TCurly p0 args :: b) = (fst (consume_rule t (r ++ [TCurly p0 args])), s ++ TCurly p0 args :: b) /\
+             snd (consume_rule t (r ++ [TCurly p0 args])) = s ++ [TCurly p0 args]).
+Proof.
+  unfold consume_rule, consume_at_rule, consume_qualified_rule.
+  pose proof (at_rule_loop_block p0 args r b) as X1.
+  destruct (qualified_loop_block p0 args r b) as (P & c & X2).
+  destruct t; cbn [andb];
+    try (destruct X2 as [[E1 E2]|(s & E1 & E2)]; rewrite E1, E2; [left|right; exists s]; split; reflexivity).
+  - destruct (at_rule_loop (r ++ [TCurly p0 args])) as [[x y] z]; cbn [fst snd] in *.
+    destruct X1 as [[E1 E2]|(s & E1 & E2)]; rewrite E1; [left; subst z|right; exists s; subst z]; auto.
+  - right. exists r. split; reflexivity.
+Qed.
+
+Theorem rule_list_compositional : forall (skip_comments skip_ws : bool) (a b : list token) (p : pos) (args : list token),
+  exists oa ob,
+    parse_rule_list (a ++ [TCurly p args]) skip_comments skip_ws = Ok oa /\
+    parse_rule_list b skip_comments skip_ws = Ok ob /\
+    parse_rule_list (a ++ TCurly p args :: b) skip_comments skip_ws = Ok (oa ++ ob).
+Proof.
+  intros sc sw a b p args. unfold parse_rule_list.
+  apply (loop_block (negb sw) (negb sc) (fun _ => false) consume_rule consume_rule_length (TCurly p args))
+    with (n := length a); try lia.
+  - repeat split.
+  - intros b0. split; reflexivity.
+  - intros t r b0. apply consume_rule_block.
+Qed.
+
+Theorem stylesheet_compositional : forall (skip_comments skip_ws : bool) (a b : list token) (p : pos) (args : list token),
+  exists oa ob,
+    parse_stylesheet (a ++ [TCurly p args]) skip_comments skip_ws = Ok oa /\
+    parse_stylesheet b skip_comments skip_ws = Ok ob /\
+    parse_stylesheet (a ++ TCurly p args :: b) skip_comments skip_ws = Ok (oa ++ ob).
+Proof.
+  intros sc sw a b p args. unfold parse_stylesheet.
+  apply (loop_block (negb sw) (negb sc) (fun v => str_eqb v s_cdo || str_eqb v s_cdc) consume_rule consume_rule_length (TCurly p args))
+    with (n := length a); try lia.
+  - repeat split.
+  - intros b0. split; reflexivity.
+  - intros t r b0. apply consume_rule_block.
+Qed.
+
+Theorem parse_rule_list_total : forall l sc sw, exists o, parse_rule_list l sc sw = Ok o.
+Proof. intros. unfold parse_rule_list. apply loop_ok; [apply consume_rule_length|lia]. Qed.
+
+Theorem parse_stylesheet_total : forall l sc sw, exists o, parse_stylesheet l sc sw = Ok o.
+Proof. intros. unfold parse_stylesheet. apply loop_ok; [apply consume_rule_length|lia]. Qed.
